@@ -4,11 +4,12 @@ import nodecheck
 PROFILE = dict(outbound=0.5)
 W = nodecheck.weights(pre_handshake=4, cer_plus=3, cea=8, request=3, stall=1)
 N_QUICK, N_THOROUGH, LENGTH = 60, 1500, 14
+THEMES = (("handshake_in", 2, 60, 3, 600), ("handshake_out", 2, 60, 3, 600), ("ready", 1, 30, 2, 300))
 FILES = ["Props/C06.v"]
 
 
 def check(run):
-    return nodecheck.run(run, "C06", FILES, PROFILE, W, N_QUICK, N_THOROUGH, LENGTH)
+    return nodecheck.run(run, "C06", FILES, PROFILE, W, N_QUICK, N_THOROUGH, LENGTH, themes=THEMES)
 
 
 replay = nodecheck.replay_generic
